@@ -23,6 +23,7 @@ import (
 	"os"
 	"os/exec"
 	"runtime"
+	"sort"
 	"strings"
 	"sync"
 	"time"
@@ -214,6 +215,79 @@ var orphanQueries = []query{
 	{Q: `{ __type(name: "Pet") { possibleTypes { name } } pets { name } ok }`},
 }
 
+// hiddenInputs: input-object types (field maps given as thunks) that are reachable ONLY through the arguments of an
+// interface's fields (no implementing object is reachable), through a list / non-null wrapper there, or nested inside such
+// an input object. Validation of the requests below has to look at their fields — on a cold schema, from every goroutine.
+func buildHiddenInputs() (*graphql.Schema, error) {
+	inner := graphql.NewInputObject(graphql.InputObjectConfig{Name: "InnerFilter", Fields: graphql.InputObjectConfigFieldMapThunk(func() graphql.InputObjectConfigFieldMap {
+		return graphql.InputObjectConfigFieldMap{"b": &graphql.InputObjectFieldConfig{Type: graphql.Int}, "c": &graphql.InputObjectFieldConfig{Type: graphql.String}}
+	})})
+	filter := graphql.NewInputObject(graphql.InputObjectConfig{Name: "Filter", Fields: graphql.InputObjectConfigFieldMapThunk(func() graphql.InputObjectConfigFieldMap {
+		return graphql.InputObjectConfigFieldMap{"a": &graphql.InputObjectFieldConfig{Type: graphql.Int}, "nested": &graphql.InputObjectFieldConfig{Type: inner}}
+	})})
+	wrapped := graphql.NewInputObject(graphql.InputObjectConfig{Name: "Wrapped", Fields: graphql.InputObjectConfigFieldMapThunk(func() graphql.InputObjectConfigFieldMap {
+		return graphql.InputObjectConfigFieldMap{"w": &graphql.InputObjectFieldConfig{Type: graphql.NewNonNull(graphql.Int)}}
+	})})
+	searchable := graphql.NewInterface(graphql.InterfaceConfig{Name: "Searchable",
+		ResolveType: func(p graphql.ResolveTypeParams) *graphql.Object { return nil },
+		Fields: graphql.Fields{
+			"find": &graphql.Field{Type: graphql.String, Args: graphql.FieldConfigArgument{"filter": &graphql.ArgumentConfig{Type: filter},
+				"many": &graphql.ArgumentConfig{Type: graphql.NewList(graphql.NewNonNull(wrapped))}}},
+		}})
+	q := graphql.NewObject(graphql.ObjectConfig{Name: "Q", Fields: graphql.Fields{
+		"thing":  &graphql.Field{Type: searchable, Resolve: func(p graphql.ResolveParams) (interface{}, error) { return nil, nil }},
+		"things": &graphql.Field{Type: graphql.NewList(searchable), Resolve: func(p graphql.ResolveParams) (interface{}, error) { return []interface{}{}, nil }},
+		"ok":     &graphql.Field{Type: graphql.Int, Resolve: func(p graphql.ResolveParams) (interface{}, error) { return 1, nil }},
+	}})
+	s, err := graphql.NewSchema(graphql.SchemaConfig{Query: q})
+	return &s, err
+}
+
+var hiddenInputQueries = []query{
+	{Q: `{ thing { find(filter: {a: 1, nested: {b: 2, c: "x"}}) } ok }`},
+	{Q: `{ things { find(many: [{w: 1}, {w: 2}]) } thing { find(filter: {nested: {b: "wrong"}}) } }`},
+	{Q: `query ($f: Filter, $m: [Wrapped!]) { thing { find(filter: $f, many: $m) } }`, Vars: map[string]interface{}{"f": map[string]interface{}{"a": 1, "nested": map[string]interface{}{"b": 3}}, "m": []interface{}{map[string]interface{}{"w": 5}}}},
+}
+
+// singleMember: abstract types with exactly ONE possible type, at depth >= 2 (their sub-selections are planned lazily,
+// i.e. while the plan's mutex is held), in single fields and lists.
+func buildSingleMember() (*graphql.Schema, error) {
+	type node struct{ name string }
+	var dog *graphql.Object
+	rt := func(p graphql.ResolveTypeParams) *graphql.Object { return dog }
+	named := graphql.NewInterface(graphql.InterfaceConfig{Name: "OnlyNamed", Fields: graphql.Fields{"name": &graphql.Field{Type: graphql.String}}, ResolveType: rt})
+	var pet *graphql.Union
+	var user *graphql.Object
+	nameF := &graphql.Field{Type: graphql.String, Resolve: func(p graphql.ResolveParams) (interface{}, error) { return p.Source.(*node).name, nil }}
+	dog = graphql.NewObject(graphql.ObjectConfig{Name: "Dog", Interfaces: []*graphql.Interface{named}, Fields: graphql.FieldsThunk(func() graphql.Fields {
+		return graphql.Fields{"name": nameF,
+			"owner": &graphql.Field{Type: user, Resolve: func(p graphql.ResolveParams) (interface{}, error) {
+				return &node{p.Source.(*node).name + "'s owner"}, nil
+			}}}
+	})})
+	pet = graphql.NewUnion(graphql.UnionConfig{Name: "OnlyPet", Types: []*graphql.Object{dog}, ResolveType: rt})
+	user = graphql.NewObject(graphql.ObjectConfig{Name: "User", Fields: graphql.FieldsThunk(func() graphql.Fields {
+		return graphql.Fields{"name": nameF,
+			"favourite": &graphql.Field{Type: pet, Resolve: func(p graphql.ResolveParams) (interface{}, error) { return &node{"Rex"}, nil }},
+			"only":      &graphql.Field{Type: named, Resolve: func(p graphql.ResolveParams) (interface{}, error) { return &node{"Fido"}, nil }},
+			"pack": &graphql.Field{Type: graphql.NewList(pet), Resolve: func(p graphql.ResolveParams) (interface{}, error) {
+				return []interface{}{&node{"a"}, &node{"b"}}, nil
+			}}}
+	})})
+	q := graphql.NewObject(graphql.ObjectConfig{Name: "Q", Fields: graphql.Fields{
+		"viewer": &graphql.Field{Type: user, Resolve: func(p graphql.ResolveParams) (interface{}, error) { return &node{"me"}, nil }},
+		"top":    &graphql.Field{Type: pet, Resolve: func(p graphql.ResolveParams) (interface{}, error) { return &node{"Top"}, nil }},
+	}})
+	s, err := graphql.NewSchema(graphql.SchemaConfig{Query: q})
+	return &s, err
+}
+
+var singleMemberQueries = []query{
+	{Q: `{ viewer { favourite { ... on Dog { name } } } }`},
+	{Q: `{ viewer { name only { name } pack { __typename ... on Dog { name owner { favourite { ... on Dog { name } } } } } } top { ... on Dog { name } } }`},
+	{Q: `{ top { ... on Dog { owner { only { name ... on Dog { owner { name } } } } } } }`},
+}
+
 var slowPlanQueries = []query{
 	{Q: `{ pets { __typename ... on Dog { name say(v: 3) friend { ... on Cat { name say(v: 2) friend { ... on Dog { say(v: 1) } } } } } ... on Cat { name say(v: 5) pack { name ... on Bird { say(v: 4) } } } ... on Bird { name } } }`},
 	{Q: `{ named { name ... on Dog { say(v: 7) pack { ... on Cat { say(v: 1) } ... on Dog { name say(v: 6) } } } ... on Cat { say(v: 8) } } pet { ... on Dog { say(v: 2) friend { ... on Cat { say(v: 9) } } } } }`},
@@ -246,12 +320,16 @@ func scenarios(seed uint64, thorough bool) []scenario {
 	out = append(out, descScenario("wide+errors+thunks", wide, wq, true, true, true))
 	out = append(out, scenario{Name: "dirOnly", build: buildDirOnly, Queries: []query{
 		{Q: `{ a @cfg(o: {p: 1, r: K}, e: L) }`}, {Q: `{ a2: a @cfg(o: {p: "x", r: Z}, e: 3) a }`}, {Q: `{ a }`}}})
+	out = append(out, scenario{Name: "hiddenInputs", build: buildHiddenInputs, Queries: hiddenInputQueries})
+	out = append(out, scenario{Name: "hiddenInputs", build: buildHiddenInputs, Queries: hiddenInputQueries})
+	out = append(out, scenario{Name: "singleMember", build: buildSingleMember, Queries: singleMemberQueries,
+		Ops: []string{"execPlan", "execPlan", "cacheGet", "cacheGet", "do"}})
 	for k := 0; k < 2; k++ {
 		out = append(out, scenario{Name: "orphanAbstract", build: buildOrphanAbstract, Queries: orphanQueries})
 	}
-	// three entries = three times the weight: these rounds are the ones that can see a lazy initialiser whose check and
+	// four entries = four times the weight: these rounds are the ones that can see a lazy initialiser whose check and
 	// store are not one critical section (all accesses locked, no race report, wrong answer)
-	for k := 0; k < 3; k++ {
+	for k := 0; k < 4; k++ {
 		out = append(out, scenario{Name: "slowPlan", build: buildSlowPlan, Queries: slowPlanQueries,
 			Ops: []string{"execPlan", "execPlan", "execPlan", "cacheGet", "cacheGet", "do"}})
 	}
@@ -406,6 +484,16 @@ func runRound(rs roundSpec, scs []scenario) roundResult {
 		res.Fault = "schema does not build: " + err.Error()
 		return res
 	}
+	// warm-up premise (warm.go), on the baseline schema before anything was served
+	if probs, cerrs := warmProblems(alone); len(probs) > 0 || len(cerrs) > 0 {
+		sort.Strings(probs)
+		if len(cerrs) > 0 {
+			res.Fault = "WARM-UP CHECK BROKEN: " + strings.Join(cerrs, "; ")
+			return res
+		}
+		// reported when the round ends; the round still runs (the race detector may show the consequence first)
+		res.Fault = "NOT WARMED: " + strings.Join(probs, "; ")
+	}
 	wantDo := make([]string, len(sc.Queries))
 	wantVal := make([]string, len(sc.Queries))
 	wantCache := make([]string, len(sc.Queries))
@@ -516,7 +604,18 @@ func main() {
 		w := bufio.NewWriter(os.Stdout)
 		for i := *from; i < *to; i++ {
 			fmt.Fprintf(os.Stderr, "ROUND %d\n", i)
-			r := runRound(mkRound(run.Seed, i, scs), scs)
+			rs := mkRound(run.Seed, i, scs)
+			// watchdog over the WHOLE round (the sequential baseline included: a self-deadlock needs no second goroutine)
+			rc := make(chan roundResult, 1)
+			go func() { rc <- runRound(rs, scs) }()
+			var r roundResult
+			select {
+			case r = <-rc:
+			case <-time.After(20 * time.Second):
+				buf := make([]byte, 1<<16)
+				n := runtime.Stack(buf, true)
+				r = roundResult{Round: i, Scenario: scs[rs.Scenario].Name, N: rs.N, Fault: "DEADLOCK? round did not finish within 20s (a request hangs)\n" + lockFrames(string(buf[:n]))}
+			}
 			b, _ := json.Marshal(r)
 			w.Write(b)
 			w.WriteByte('\n')
@@ -570,7 +669,12 @@ func main() {
 		}
 		run.Case(fmt.Sprintf("%d|%s|%d", r.Round, r.Scenario, r.N), r.N >= 2 && r.Steps >= 2*r.N && r.Fault == "", map[string]interface{}{"round": r.Round, "scenario": r.Scenario, "n": r.N, "steps": r.Steps})
 		rs := mkRound(run.Seed, r.Round, scs)
-		if r.Fault != "" {
+		if strings.HasPrefix(r.Fault, "WARM-UP CHECK BROKEN") {
+			run.CheckError(r.Fault)
+		} else if strings.HasPrefix(r.Fault, "NOT WARMED") {
+			run.Violation("NewSchema left lazily initialised types that requests can reach uninitialised (they would be initialised, unsynchronised, by the first requests): "+r.Fault[len("NOT WARMED: "):min(len(r.Fault), 400)],
+				map[string]interface{}{"round": rs, "scenario": scs[rs.Scenario].Name, "queries": scs[rs.Scenario].Queries, "fault": r.Fault}, false)
+		} else if r.Fault != "" {
 			run.Violation("round did not complete: "+r.Fault[:min(len(r.Fault), 200)], map[string]interface{}{"round": rs, "scenario": scs[rs.Scenario].Name, "queries": scs[rs.Scenario].Queries, "fault": r.Fault}, false)
 		}
 		if len(r.Mismatches) > 0 {
@@ -588,6 +692,7 @@ func main() {
 			cmd.Stderr = &stderr
 			out, cerr := cmd.Output()
 			last := fromI - 1
+			lastFault := false
 			for _, line := range bytes.Split(out, []byte("\n")) {
 				if len(bytes.TrimSpace(line)) == 0 {
 					continue
@@ -596,10 +701,22 @@ func main() {
 				if json.Unmarshal(line, &r) == nil {
 					handle(r)
 					last = r.Round
+					lastFault = strings.HasPrefix(r.Fault, "DEADLOCK")
 				}
 			}
 			if cerr == nil {
 				return
+			}
+			if lastFault {
+				// the child reported the hang itself (handle() recorded the violation) and exited; go on after that round
+				fromI = last + 1
+				mu.Lock()
+				stop := run.TooManyViolations()
+				mu.Unlock()
+				if stop {
+					return
+				}
+				continue
 			}
 			// the child died in the round after `last`
 			failed := last + 1
@@ -660,6 +777,27 @@ func main() {
 	run.Res.Extra["scenarios"] = len(scs)
 	run.Res.Assumptions = []string{"race freedom, absence of panics/deadlocks and equality with the sequential response are sampled over schedules the Go scheduler happened to produce (race detector), not proved for the real binary"}
 	run.Finish()
+}
+
+// lockFrames keeps, of a full goroutine dump, the goroutines that are blocked in sync.(*Mutex).Lock inside the library.
+func lockFrames(dump string) string {
+	var out []string
+	for _, g := range strings.Split(dump, "\n\n") {
+		if strings.Contains(g, "sync.(*Mutex).Lock") && strings.Contains(g, "graphql-go/graphql") {
+			ls := strings.Split(g, "\n")
+			if len(ls) > 24 {
+				ls = ls[:24]
+			}
+			out = append(out, strings.Join(ls, "\n"))
+		}
+		if len(out) >= 3 {
+			break
+		}
+	}
+	if len(out) == 0 {
+		return tail(dump, 3000)
+	}
+	return strings.Join(out, "\n\n")
 }
 
 func raceSummary(se string) string {
